@@ -4,5 +4,6 @@ set -e
 cd "$(dirname "$0")/harness"
 export CARGO_NET_OFFLINE=true
 cargo build --offline --no-default-features --features hooks --target-dir target
+cargo build --offline --no-default-features --features hooks,persistence --target-dir target-persist
 mkdir -p ../work ../evidence
 echo setup-ok
